@@ -38,6 +38,107 @@ class Entry:
         return '%s %s' % (self.kind, self.target)
 
 
+def _entry_for(F: Facts, m: Module, key: str, v: ast.AST) -> Entry:
+    if isinstance(v, ast.Lambda):
+        return Entry(key, 'lambda', v, v, v.lineno)
+    r = F.resolve_expr(m, v)
+    if r[0] == 'fn':
+        return Entry(key, 'fn', r[1], v, v.lineno)
+    if r[0] == 'builtin':
+        return Entry(key, 'builtin', r[1], v, v.lineno)
+    if r[0] in ('ext', 'cls'):
+        return Entry(key, 'ext' if r[0] == 'ext' else 'cls', r[1], v, v.lineno)
+    return Entry(key, 'other', norm(v), v, v.lineno)
+
+
+def _from_display(F: Facts, m: Module, d: ast.Dict, out: Dict[str, Entry], depth: int = 0) -> None:
+    for k, v in zip(d.keys, d.values):
+        if k is None:
+            # {**OTHER_TABLE}: a module-level dict display merged in
+            sub = None
+            if isinstance(v, ast.Name) and depth < 5:
+                r = F.resolve_name(m, v.id)
+                if r[0] == 'modvar':
+                    mod, _, var = r[1].rpartition('.')
+                    mm = F.modules.get(mod)
+                    vals = mm.assigns.get(var) if mm else None
+                    if vals and len(vals) == 1 and isinstance(vals[0], ast.Dict):
+                        sub = (mm, vals[0])
+            if sub is None:
+                raise AnalysisError('%s merges `**%s`, which is not a module-level dict display' % (TABLE, norm(v)))
+            _from_display(F, sub[0], sub[1], out, depth + 1)
+            continue
+        if not (isinstance(k, ast.Constant) and isinstance(k.value, str)):
+            raise AnalysisError('%s has a non-literal key %s' % (TABLE, norm(k)))
+        out.pop(k.value, None)
+        out[k.value] = _entry_for(F, m, k.value, v)
+
+
+def _from_execution(F: Facts, m: Module) -> Dict[str, Entry]:
+    """The table is filled at import time (FUNCTIONS = {} followed by registration calls / decorators): execute the
+    module body symbolically and read the resulting dict."""
+    from .symexec import SymExec, Frame, DictVal, Closure, Unrecognised, freeze, is_const, _Signal
+    dummy = ast.parse('def __module_body__():\n    pass').body[0]
+    se = SymExec(F, FuncInfo(m.name + '.<module>', m, dummy))
+    se._reset([])
+    fr = Frame(m, m.name + '.<module>', None)
+    se.module_env[m.name] = fr.env
+    for st in m.tree.body:
+        try:
+            if isinstance(st, ast.ClassDef):
+                continue
+            if isinstance(st, (ast.Import, ast.ImportFrom)):
+                continue          # imports are resolved through the module's import table
+            if isinstance(st, ast.FunctionDef):
+                # bind the name to the package function; apply package decorators (registration decorators run here)
+                qual = m.name + '.' + st.name
+                val = ('ref', 'fn', qual)
+                if se.package_decorators(m, st):
+                    mfr = fr
+                    cur = ('ref', 'fnraw', qual)
+                    for d in reversed(se.package_decorators(m, st)):
+                        dec = se.ev(d, mfr)
+                        cur = se.call(dec, [cur], [], d, mfr)
+                continue
+            se.exec_stmt(st, fr)
+        except (Unrecognised, _Signal):
+            continue
+    tab = fr.env.get(TABLE)
+    if not isinstance(tab, DictVal):
+        raise AnalysisError('%s.%s is not built as a dict the analysis can follow' % (FUNCS_MOD, TABLE))
+    out: Dict[str, Entry] = {}
+    for it in tab.items:
+        if it[0] == 'dstar':
+            raise AnalysisError('%s merges an unknown mapping' % TABLE)
+        k, v = freeze(it[0]), it[1]
+        if not (is_const(k) and isinstance(k[1], str)):
+            raise AnalysisError('%s has a non-literal key %r' % (TABLE, k))
+        fv = freeze(v)
+        line = 0
+        if isinstance(v, Closure):
+            node = v.node
+            line = node.lineno
+            if isinstance(node, ast.Lambda):
+                e = Entry(k[1], 'lambda', node, node, line)
+            else:
+                e = Entry(k[1], 'fn', v.module.name + '.' + node.name, node, line)
+        elif isinstance(fv, tuple) and fv[:1] == ('ref',):
+            kind, tgt = fv[1], fv[2]
+            if kind in ('fn', 'fnraw'):
+                e = Entry(k[1], 'fn', tgt, F.functions[tgt].node if tgt in F.functions else None, getattr(F.functions.get(tgt), 'node', dummy).lineno)
+            elif kind == 'builtin':
+                e = Entry(k[1], 'builtin', tgt, None, 0)
+            elif kind in ('ext', 'cls'):
+                e = Entry(k[1], 'ext' if kind == 'ext' else 'cls', tgt, None, 0)
+            else:
+                e = Entry(k[1], 'other', str(fv), None, 0)
+        else:
+            e = Entry(k[1], 'other', str(fv)[:60], None, 0)
+        out.pop(k[1], None)
+        out[k[1]] = e
+    return out
+
+
 def table(F: Facts) -> Dict[str, Entry]:
     c = getattr(F, '_functab', None)
     if c is not None:
@@ -48,31 +149,88 @@ def table(F: Facts) -> Dict[str, Entry]:
     vals = m.assigns.get(TABLE)
     if not vals:
         raise AnalysisError('anchor vanished: %s.%s' % (FUNCS_MOD, TABLE))
-    if len(vals) != 1 or not isinstance(vals[0], ast.Dict):
-        raise AnalysisError('%s.%s is not a single dict display (assigned %d times)' % (FUNCS_MOD, TABLE, len(vals)))
     out: Dict[str, Entry] = {}
-    d = vals[0]
-    for k, v in zip(d.keys, d.values):
-        if k is None:
-            raise AnalysisError('%s uses ** unpacking, not modelled' % TABLE)
-        if not (isinstance(k, ast.Constant) and isinstance(k.value, str)):
-            raise AnalysisError('%s has a non-literal key %s' % (TABLE, norm(k)))
-        if isinstance(v, ast.Lambda):
-            e = Entry(k.value, 'lambda', v, v, v.lineno)
-        else:
-            r = F.resolve_expr(m, v)
-            if r[0] == 'fn':
-                e = Entry(k.value, 'fn', r[1], v, v.lineno)
-            elif r[0] == 'builtin':
-                e = Entry(k.value, 'builtin', r[1], v, v.lineno)
-            elif r[0] in ('ext', 'cls'):
-                e = Entry(k.value, 'ext' if r[0] == 'ext' else 'cls', r[1], v, v.lineno)
-            else:
-                e = Entry(k.value, 'other', norm(v), v, v.lineno)
-        if k.value in out:
-            raise AnalysisError('%s has the key %r twice' % (TABLE, k.value))
-        out[k.value] = e
+    display = vals[0] if len(vals) == 1 and isinstance(vals[0], ast.Dict) else None
+    if display is not None and display.keys:
+        _from_display(F, m, display, out)
+    else:
+        out = _from_execution(F, m)
+    if not out:
+        raise AnalysisError('%s.%s is empty' % (FUNCS_MOD, TABLE))
     F._functab = out  # type: ignore
+    return out
+
+
+def _only_called_at_module_level(m: Module, name: str) -> bool:
+    """The module body refers to `name` at least once and only to call it (or to apply it as a decorator): it is never
+    stored, passed on or exported by the module body, so nothing can call it after the import."""
+    callee_nodes = set()
+    refs = []
+    def scan(root):
+        for n in ast.walk(root):
+            if isinstance(n, ast.Call) and isinstance(n.func, ast.Name):
+                callee_nodes.add(n.func)
+            if isinstance(n, ast.Name) and n.id == name and isinstance(n.ctx, ast.Load):
+                refs.append(n)
+    for st in m.tree.body:
+        if isinstance(st, (ast.FunctionDef, ast.AsyncFunctionDef, ast.ClassDef)):
+            for d in st.decorator_list:
+                scan(d)
+                if isinstance(d, ast.Name):
+                    callee_nodes.add(d)
+            if isinstance(st, ast.ClassDef):
+                for b in st.body:
+                    if not isinstance(b, (ast.FunctionDef, ast.AsyncFunctionDef)):
+                        scan(b)
+                    else:
+                        for d in b.decorator_list:
+                            scan(d)
+                            if isinstance(d, ast.Name):
+                                callee_nodes.add(d)
+        else:
+            scan(st)
+    return bool(refs) and all(r in callee_nodes for r in refs)
+
+
+def import_time_only_writers(F: Facts, modname: Optional[str] = None) -> List[str]:
+    """Functions of a module (default: the functions module) that are used by the module body while it is imported and
+    referenced by no function afterwards (registration helpers): what they write is written once, at import."""
+    m = F.modules.get(modname or FUNCS_MOD)
+    out = []
+    if m is None:
+        return out
+    referenced_in_functions = set()
+    for q, fi in F.functions.items():
+        # decorators and defaults are evaluated when the def statement runs, not when the function is called
+        body = fi.node.body if isinstance(fi.node.body, list) else [fi.node.body]
+        for st in body:
+            for n in ast.walk(st):
+                if isinstance(n, (ast.FunctionDef, ast.AsyncFunctionDef)):
+                    continue
+                if isinstance(n, ast.Name) and isinstance(n.ctx, ast.Load):
+                    referenced_in_functions.add((fi.module.name, n.id, q))
+    for q, fi in F.functions.items():
+        if fi.module is not m or fi.cls:
+            continue
+        name = q.rsplit('.', 1)[-1]
+        users = {u for (mod, n, u) in referenced_in_functions if n == name and u != q and not u.startswith(q + '.')}
+        # users that are themselves import-time-only helpers are fine; iterate to a fixpoint below
+        # a writer that the module body never uses is not a registration helper: it is an entry point for later writes
+        used_at_import = _only_called_at_module_level(m, name)
+        if not users and used_at_import:
+            out.append(q)
+    # helpers used only by other import-time helpers
+    changed = True
+    while changed:
+        changed = False
+        for q, fi in F.functions.items():
+            if fi.module is not m or fi.cls or q in out:
+                continue
+            name = q.rsplit('.', 1)[-1]
+            users = {u for (mod, n, u) in referenced_in_functions if n == name and u != q}
+            if users and all(any(u == o or u.startswith(o + '.') for o in out) for u in users):
+                out.append(q)
+                changed = True
     return out
 
 
@@ -93,7 +251,21 @@ def table_writes(F: Facts) -> List[Tuple[str, int, str]]:
             if isinstance(e, ast.Attribute) and e.attr == TABLE and isinstance(e.value, ast.Name) and e.value.id in mod_aliases:
                 return True
             return False
+        skip_nodes = set()
+        if m.name == FUNCS_MOD:
+            tab_targets = set()
+            try:
+                tab_targets = {e.target for e in table(F).values() if e.kind == 'fn'}
+            except AnalysisError:
+                pass
+            for q in import_time_only_writers(F):
+                if q in tab_targets:
+                    continue          # a table entry is callable by programs
+                for x in ast.walk(F.functions[q].node):
+                    skip_nodes.add(id(x))
         for n in ast.walk(m.tree):
+            if id(n) in skip_nodes:
+                continue
             if isinstance(n, (ast.Assign, ast.AugAssign, ast.AnnAssign, ast.Delete)):
                 tgts = n.targets if isinstance(n, (ast.Assign, ast.Delete)) else [n.target]
                 for t in tgts:
